@@ -535,9 +535,10 @@ struct Child {
                     if (!r.null()) { XalanDOMString s; s = r->str(ev->getExecutionContext()); }
                     return 0; }, nomsg);
             }
-        } else if (scen == "xcExpr" || scen == "xcExprUtf8") {
+        } else if (scen == "xcExpr" || scen == "xcExprUtf8" || scen == "xcExprSjis" || scen == "xcExprEucJp" || scen == "xcExprLatin1") {
             XalanXPathHandle xp = nullptr; int r = -1;
-            const char* enc = scen == "xcExprUtf8" ? "UTF-8" : nullptr;
+            // the encoding the expression's bytes are in (all inputs of these scenarios are ASCII, which the three agree on)
+            const char* enc = scen == "xcExprUtf8" ? "UTF-8" : scen == "xcExprSjis" ? "Shift_JIS" : scen == "xcExprEucJp" ? "EUC-JP" : scen == "xcExprLatin1" ? "ISO-8859-1" : nullptr;
             const int a = call("X", "XalanCreateXPath", cls, false, false, [&] { return XalanCreateXPath(xh, in.c_str(), enc, &xp); }, nomsg);
             if (a == 0 && xp) call("X", "XalanEvaluateXPathAsBoolean", cls, false, false, [&] { return XalanEvaluateXPathAsBoolean(xh, xp, sx.c_str(), &r); }, nomsg);
             if (xp) call("X", "XalanDestroyXPath", "seed", false, false, [&] { return XalanDestroyXPath(xh, xp); }, nomsg, false);
